@@ -18,6 +18,7 @@ import QSP.Model.Interleave
 import QSP.Model.Completion
 import QSP.Model.Decomp
 import QSP.Model.LinSys
+import QSP.Model.JacErr
 open QSP QSP.Proto
 
 def bad : String := "bad-op"
@@ -270,6 +271,10 @@ def handle (toks : List String) : String :=
       match jacSpec p b r with
       | .ok (f, cols) => s!"{showRatList f} {" ".intercalate (cols.map showRatList)}"
       | .error e => showErr e
+    | _, _, _ => bad
+  | ["sym.jacerr", par, bits, r] =>
+    match par.toNat?, bits.toNat?, parseRatList r with
+    | some p, some b, some r => showRat (jacErr p b r)
     | _, _, _ => bad
   | ["sym.jacf", par, bits, r] =>
     match par.toNat?, bits.toNat?, parseRatList r with
